@@ -96,28 +96,6 @@ def purge() -> None:
 ''')]
 
 
-@mutant('c14_shared_meta_lang_table', 'C14',
-        'the per-call <meta> language memo table becomes one class-level list shared by all matcher objects '
-        '(cleared when a matcher is created): overlapping calls on different documents see each other\'s entries')
-def _():
-    return [('soupsieve/css_match.py',
-             '''        self.cached_meta_lang = []  # type: list[tuple[str, str | None]]
-''',
-             '''        self.cached_meta_lang = CSSMatch._meta_lang_table
-        del self.cached_meta_lang[:]
-'''),
-            ('soupsieve/css_match.py',
-             '''class CSSMatch(_DocumentNav):
-    """Perform CSS matching."""
-''',
-             '''class CSSMatch(_DocumentNav):
-    """Perform CSS matching."""
-
-    # One table is enough: it is emptied whenever a new matcher is set up.
-    _meta_lang_table = []  # type: list[tuple[str, str | None]]
-''')]
-
-
 @mutant('c14_lock_order_deadlock', 'C14',
         'two locks added "for safety", taken in opposite orders by compile() and purge(): a peer purging while a '
         'compile is in flight can deadlock')
@@ -166,14 +144,14 @@ from typing import Any, Iterator, Iterable
 
 # ---------------------------------------------------------------------------------------------- C04
 
-@mutant('c04_radio_memo_name_only', 'C04',
-        'the :indeterminate radio-group memo is looked up by group name only (form ignored): the answer for a radio '
-        'depends on which same-named group in another form was examined earlier in the same call')
+@mutant('c04_radio_memo_name_caseless', 'C04',
+        'the :indeterminate radio-group memo is looked up with a case-insensitive group name: within one call the '
+        'answer for a radio named "R1" is taken from the group "r1" examined earlier (memo keyed on too little)')
 def _():
     return [('soupsieve/css_match.py',
              '''                if f is form and n == name:
 ''',
-             '''                if n == name:
+             '''                if f is form and util.lower(n or '') == util.lower(name or ''):
 ''')]
 
 
@@ -297,25 +275,11 @@ def _():
 ''')]
 
 
-@mutant('c04_default_memo_shared_across_generators', 'C04',
-        'the :default form memo moves to a class-level list (cleared per matcher): a suspended iselect generator that is '
-        'resumed after another query sees the other query\'s table')
-def _():
-    return [('soupsieve/css_match.py',
-             '''        self.cached_default_forms = []  # type: list[tuple[bs4.Tag, bs4.Tag]]
-''',
-             '''        self.cached_default_forms = CSSMatch._default_forms
-        del self.cached_default_forms[:]
-'''),
-            ('soupsieve/css_match.py',
-             '''class CSSMatch(_DocumentNav):
-    """Perform CSS matching."""
-''',
-             '''class CSSMatch(_DocumentNav):
-    """Perform CSS matching."""
-
-    _default_forms = []  # type: list[tuple[bs4.Tag, bs4.Tag]]
-''')]
+# Tried and dropped (see DESIGN.md section 9): moving a per-call memo table (meta language, default form) to ONE
+# class-level list that is emptied whenever a matcher is created is observationally equivalent - the table holds pure
+# facts about document nodes compared by identity, so another matcher's entries are either irrelevant or correct.
+# The checks rightly stay silent on them.  'maxsize=None' and 'radio memo keyed by name only' are caught by the pinned
+# tests already, so they are not "realistic" in the brief's sense.
 
 
 # ---------------------------------------------------------------------------------------------- C15
@@ -350,13 +314,13 @@ _MAXCACHE = 500
 
 # Interned custom selector maps
 _CUSTOM_BY_NAMES = {}  # type: dict[Any, Any]
+'''),
+            ('soupsieve/css_parser.py',
+             '''    _cached_css_compile.cache_clear()
+''',
+             '''    _cached_css_compile.cache_clear()
+    _CUSTOM_BY_NAMES.clear()
 ''')]
-
-
-@mutant('c15_unbounded_cache', 'C15', 'lru_cache(maxsize=None): the cache has no bound any more')
-def _():
-    return [('soupsieve/css_parser.py', '@lru_cache(maxsize=_MAXCACHE)\ndef _cached_css_compile(',
-             '@lru_cache(maxsize=None)\ndef _cached_css_compile(')]
 
 
 @mutant('c15_second_layer_not_purged', 'C15',
@@ -395,15 +359,15 @@ def _unused() -> None:
 ''')]
 
 
-@mutant('c15_pickle_drops_flags', 'C15',
-        'the pickle reducer of the compiled object passes flags=0: pickle/copy/deepcopy of a selector compiled with '
-        'flags yields an unequal object')
+@mutant('c15_pickle_normalises_empty_maps', 'C15',
+        'the pickle reducer of the compiled object "normalises" empty namespace/custom maps to None: pickle/copy/deepcopy '
+        'of a selector compiled with namespaces={} or custom={} yields an unequal object')
 def _():
     return [('soupsieve/css_match.py',
              '''ct.pickle_register(SoupSieve)
 ''',
              '''def _pickle_sieve(p: SoupSieve) -> Any:
-    return SoupSieve, (p.pattern, p.selectors, p.namespaces, p.custom, 0)
+    return SoupSieve, (p.pattern, p.selectors, p.namespaces or None, p.custom or None, p.flags)
 
 
 ct.copyreg.pickle(SoupSieve, _pickle_sieve)
